@@ -88,7 +88,7 @@ Tick ==
          overdue == u # -1 /\ e.est /\ Overdue(u, e.t, At(mad, <<e.n, e.c>>, 25000))
      IN
        /\ bad' = bad \cup Flag(~overdue \/ e.cb, "AckWithheld")
-       /\ deviations' = IF overdue /\ e.cb THEN deviations \cup {"AckHeldBackBehindBlockedData"} ELSE deviations
+       /\ deviations' = IF overdue /\ e.cb /\ e.val THEN deviations \cup {"AckHeldBackBehindBlockedData"} ELSE deviations
        /\ due' = IF u # -1 /\ (~e.est \/ overdue) THEN Set(due, u, -1) ELSE due
   /\ l' = l + 1 /\ UNCHANGED <<rcvd, fresh, mad, who, late, ackfreq, cur>>
 
